@@ -323,7 +323,8 @@ def rule_R4_print(ctx, prj):
     fm = prj.func("codelimit.common.utils:format_measurement")
     ctx.rule("R4", "format_measurement prints start.line, start.column, value and unit_name of the measurement it is given "
                    "(evaluated on a measurement with distinct figures)", floor=1)
-    m = Sym("measurement", unit_name="fn_tag", value=4711, start=Sym("loc", line=1234, column=56), end=Sym("loc", line=7777, column=88))
+    from ..evalsite import measurement
+    m = measurement(4711, "fn_tag", prj, (1234, 56), (7777, 88))
     try:
         run = run_site(prj, fm, ["some/path.py", m])
         texts = deep_strs([run.result] + [a for _, aa, kw in run.effects for a in list(aa) + list(kw.values())])
